@@ -242,3 +242,27 @@ func BubbleStacksAll() string {
 	}
 	return strings.Join(out, "; ")
 }
+
+// WDecorator is a Server.DecorateWriter product: every write of a reply goes
+// through a scheduling point first (an application that logs, compresses or
+// rate-limits what it sends).
+type WDecorator struct {
+	K *kernel.K
+}
+
+//go:norace
+func (d *WDecorator) Decorate(inner dns.Writer) dns.Writer {
+	d.K.Bump("cover.decorated_writer")
+	return &yieldWriter{k: d.K, inner: inner}
+}
+
+type yieldWriter struct {
+	k     *kernel.K
+	inner dns.Writer
+}
+
+//go:norace
+func (w *yieldWriter) Write(p []byte) (int, error) {
+	w.k.Yield("writer.pre", 0)
+	return w.inner.Write(p)
+}
